@@ -146,8 +146,8 @@ class Paths:
             fn = e.func
             if isinstance(fn, ast.Name) and fn.id in ("dict", "list", "set", "tuple", "sorted", "frozenset", "reversed", "OrderedDict"):
                 return True
-            if isinstance(fn, ast.Attribute) and fn.attr in ("copy", "union", "difference", "intersection", "keys", "values", "items"):
-                return True
+            if isinstance(fn, ast.Attribute) and fn.attr in ("copy", "union", "difference", "intersection"):
+                return True  # (keys()/values()/items() and ChainMap(...) are live views, not copies)
             return False
         if isinstance(e, ast.BinOp) and isinstance(e.op, (ast.BitOr, ast.BitAnd, ast.Sub, ast.Add)):
             return True
@@ -204,7 +204,7 @@ class Paths:
                 self._busy.discard(name)
             if len(paths) == 1 and None not in paths:
                 return paths.pop()
-            if paths == {None} or paths == {name}:
+            if None in paths or paths == {name}:
                 # a fresh object that this function files in a container: from then on it is an element of that container
                 homes = set()
                 for x in sc._own_nodes():
@@ -229,8 +229,10 @@ class Paths:
                                     self._busy.discard(name)
                                 if b is not None:
                                     homes.add(b)
-                if len(homes) == 1:
-                    return homes.pop()
+                known = {q for q in paths if q is not None and q != name}
+                if len(homes | known) == 1 and homes:
+                    # (every other binding of the local already denotes an element of that same container: `x = D.get(k)` ... `x = D[k] = set()`)
+                    return (homes | known).pop()
             return name
         if self.f.parent is not None:
             # closure variable: a parameter or local of the enclosing function
@@ -316,7 +318,20 @@ class Effects:
                     # untyped receiver: record by method name so who-may rules stay conservative
                     if fn.attr in ("cancel", "release", "acquire", "clear", "pop", "popitem", "add", "update", "discard", "remove", "close", "set", "task_done"):
                         out.append(Effect(n, path, "maybe-" + fn.attr, "?", fn.attr))
-        elif n.op in ("assign", "aug"):
+        if n.op == "call" and isinstance(n.ast, ast.Call):
+            # a bound `<Task>.cancel` handed to a call as a value (ExitStack.callback, call_soon, partial ...): the cancellation
+            # is committed here - whoever received it runs it without the look-ups and checks that follow in this function
+            for a in list(n.ast.args) + [k.value for k in n.ast.keywords]:
+                a = a.value if isinstance(a, ast.Starred) else a
+                if isinstance(a, ast.Attribute) and a.attr == "cancel" and isinstance(a.ctx, ast.Load):
+                    rt = sc.ty(a.value)
+                    ck = container_kind(self.an, rt)
+                    path = P.of(a.value) or "<expr>"
+                    if ck == "Task":
+                        out.append(Effect(n, path, "cancel", "Task", "cancel (bound method handed out)"))
+                    elif ck is None and (rt is None or rt.head in ("Any", "UserValue", "object")):
+                        out.append(Effect(n, path, "maybe-cancel", "?", "cancel (bound method handed out)"))
+        if n.op in ("assign", "aug"):
             st = n.ast
             targets = st.targets if isinstance(st, ast.Assign) else [st.target]
             flat: List[ast.expr] = []
